@@ -39,3 +39,71 @@ theorem run_conserves (ops : List Op) (st : State) :
       rw [ih, consume_remaining]
 
 end SamVerif.CommentQueue
+
+namespace SamVerif.CommentQueue
+
+theorem pushBack_remaining (cs : List Comment) (st : State) :
+    remaining (pushBack cs st) = cs ++ remaining st := by
+  simp [pushBack, remaining]
+
+/-- handed-out comments of the elements -/
+def elemComments (es : List (Str × List Comment)) : List Comment := es.flatMap (·.2)
+
+theorem elemComments_reverse_cons (acc : List (Str × List Comment)) (x : Str × List Comment) :
+    elemComments (x :: acc).reverse = elemComments acc.reverse ++ x.2 := by
+  simp [elemComments]
+
+theorem parseList_conserves (endTok : Str) (fuel : Nat) (st : State) (extra : List Comment)
+    (acc : List (Str × List Comment)) :
+    elemComments (parseList endTok fuel st extra acc).2.1 ++ (parseList endTok fuel st extra acc).2.2 ++
+        remaining (parseList endTok fuel st extra acc).1 =
+      elemComments acc.reverse ++ extra ++ remaining st := by
+  induction fuel generalizing st extra acc with
+  | zero => simp [parseList]
+  | succ n ih =>
+    have hp0 := peek_remaining st
+    have hc1 := consume_remaining (peek st).1
+    -- abbreviations
+    generalize hst1 : (consume (peek st).1).1 = st1 at *
+    generalize hcs : (consume (peek st).1).2 = cs at *
+    have hp1 := peek_remaining st1
+    have base : elemComments acc.reverse ++ extra ++ remaining st =
+        elemComments acc.reverse ++ (extra ++ cs) ++ remaining (peek st1).1 := by
+      rw [hp1, ← hp0, ← hc1]; simp [List.append_assoc]
+    simp only [parseList, hst1, hcs]
+    split
+    · rename_i s hs
+      split
+      · -- a comma
+        have hc2 := consume_remaining (peek st1).1
+        generalize hst2 : (consume (peek st1).1).1 = st2 at *
+        generalize hccs : (consume (peek st1).1).2 = ccs at *
+        have hp2 := peek_remaining st2
+        split
+        · rename_i s2 hs2
+          split
+          · -- trailing comma followed by the closing token
+            have hc3 := consume_remaining (pushBack ccs (peek st2).1)
+            rw [pushBack_remaining, hp2] at hc3
+            simp only [elemComments_reverse_cons]
+            rw [base, ← hc2, ← hc3]
+            simp [List.append_assoc]
+          · -- next element
+            rw [ih, elemComments_reverse_cons, base, ← hc2, hp2]
+            simp [List.append_assoc]
+        · -- end of input after the comma
+          simp only [elemComments_reverse_cons]
+          rw [base, ← hc2, hp2]
+          simp [List.append_assoc]
+      · split
+        · -- closing token
+          have hc3 := consume_remaining (peek st1).1
+          simp only [elemComments_reverse_cons]
+          rw [base, ← hc3]
+          simp [List.append_assoc]
+        · simp only [elemComments_reverse_cons, List.append_nil]
+          rw [base]
+    · simp only [elemComments_reverse_cons, List.append_nil]
+      rw [base]
+
+end SamVerif.CommentQueue
